@@ -7,7 +7,7 @@ FILES = ['theories/Base.v', 'theories/gen/Codec.v', 'theories/gen/Tp21Gen.v', 't
          'theories/Model21.v', 'theories/Model22.v', 'theories/Replay21.v', 'theories/Replay22.v', 'proofs/CodecProofs.v', 'proofs/Flat.v',
          'proofs/MpgProofs.v', 'proofs/PoolProofs.v', 'proofs/Tp21Seg.v', 'proofs/Tp21Resp.v', 'proofs/TimeoutProofs.v', 'proofs/Tp22Proofs.v', 'proofs/Tp22Resp.v', 'proofs/ConserveProofs.v', 'proofs/FrameLocal22.v',
          'theories/SkelDefs.v', 'theories/FlowDefs.v', 'theories/gen/SkelGen.v', 'proofs/FlowProofs.v', 'proofs/OrderProofs.v',
-         'proofs/Net21.v', 'proofs/Net22.v']
+         'proofs/Net21.v', 'proofs/Net21Proofs.v', 'proofs/Net22.v', 'proofs/Net22Proofs.v', 'proofs/Tp21Orig.v']
 
 
 def gen_capacity(rng):
@@ -73,7 +73,7 @@ def run(out, tier, rng, work):
                 'starts 7..11 RTS/CTS and 3..6 BAM sessions at one instant (capacity 8 + 4); oracle: exactly-once delivery, refusal exactly '
                 'beyond capacity and without frames; every handler log replayed on the Coq model (Model22); non-trivial = FD.TP frames on the bus'
                 ' Cyclic application timers on the ECUs in a quarter of the scenarios. Closed-loop correspondence of the FD network model (Net22.v) against two real FD stacks.')
-    out.assumptions = ['A1-A6 of DESIGN.md section 3', 'closed-loop FD role theorems are not proved: delivery is covered by correspondence + oracle (testing); proved: segmentation, capacity, allocation freshness, pool invariant steps, inbound neutrality']
+    out.assumptions = ['A1-A6 of DESIGN.md section 3', 'the FD closed-loop theorem (T02.9) is for one RTS/CTS transfer between two otherwise idle nodes without pacing, under the schedule of Net22.v; any-schedule / many-transfer network theorems are not proved: covered by frame locality, the capacity invariants and the correspondence runs (testing)']
     sprop.run_stateful(out, 'C02', tier, rng, work, FILES, gen, oracle, 100, 1500, nontrivial,
                        sample=lambda sc, res: dict(capacity=sc.get('capacity', False), sends=[(e['a'][1], e['a'][2], e['a'][5]['len']) for e in sc['script'] if e['op'] == 'send'][:6],
                                                    returns=[r for ev, r in res.returns][:14]))
